@@ -302,6 +302,34 @@ def analyse_add(fn):
     return None
 
 
+def analyse_getitem(fn, container):
+    """does `__getitem__` hand slice keys to the member container?
+    Observer0DGroup shape: `try: selected = self._observers[item]` (any key type reaches the tuple);
+    BolometerCamera shape: `if isinstance(item, (int[, slice])): try: return self._foil_detectors[item]`."""
+    if len(fn.args.args) != 2:
+        return False
+    key = fn.args.args[1].arg
+    body = strip_doc(fn.body)
+
+    def indexes_container(stmts):
+        for st in stmts:
+            v = st.value if isinstance(st, (ast.Assign, ast.Return)) else None
+            if isinstance(v, ast.Subscript) and is_self_attr(v.value, (container,)) and isinstance(v.slice, ast.Name) and v.slice.id == key:
+                return True
+        return False
+
+    if not body:
+        return False
+    if isinstance(body[0], ast.Try):
+        return indexes_container(body[0].body)
+    if isinstance(body[0], ast.If):
+        names = isinstance_call(body[0].test, key)
+        inner = body[0].body
+        if names and 'slice' in names and inner:
+            return indexes_container(inner[0].body if isinstance(inner[0], ast.Try) else inner)
+    return False
+
+
 # ---------------------------------------------------------------------------------------------------------------
 def scan(repo='/repo'):
     classes = {}          # name -> dict(node, bases, file)
@@ -378,6 +406,9 @@ def scan(repo='/repo'):
         if accepted == ['self._OBSERVER_TYPE']:
             e = lookup(c, '_OBSERVER_TYPE')
             accepted = [e['value']] if e and e['kind'] == 'value' else []
+        gi = lookup(c, '__getitem__')
+        container = ROOTS[root][1]
+        slice_keys = bool(gi and gi['kind'] == 'method' and analyse_getitem(gi['node'], container))
         names = []
         for k in reversed(chain):
             for n in ns[k]:
@@ -392,7 +423,7 @@ def scan(repo='/repo'):
                 continue                      # read-only view of something else (e.g. BolometerCamera.slits)
             table.append(dict(cls=c, name=n, definedIn=e['definedIn'], getterFn=e['getterFn'], getter=e['getter'], setter=e['setter']))
             attrs.append(n)
-        out_classes.append(dict(name=c, family=family, accepted=accepted, addErr=add_err, attrs=attrs, file=classes[c]['file'], mro=chain))
+        out_classes.append(dict(name=c, family=family, accepted=accepted, addErr=add_err, sliceKeys=slice_keys, attrs=attrs, file=classes[c]['file'], mro=chain))
         for m in HAND_MODELLED:
             e = lookup(c, m)
             if e and e['kind'] == 'method':
@@ -448,8 +479,8 @@ def render(sc):
          'import Cherab.Model.Groups', 'namespace Cherab.Gen.GroupTable', 'open Cherab.Groups', '',
          '/-- %d `@X.setter` definitions in the source; %d (class, attribute) descriptors after inheritance -/' % (sc['n_setter_defs'], len(sc['table'])),
          'def classes : List ClassInfo := [']
-    L.append(',\n'.join('  { name := %s, family := .%s, accepted := [%s], addErr := .%s }' % (
-        _s(c['name']), c['family'], ', '.join(_s(a) for a in c['accepted']), c['addErr']) for c in sc['classes']))
+    L.append(',\n'.join('  { name := %s, family := .%s, accepted := [%s], addErr := .%s, sliceKeys := %s }' % (
+        _s(c['name']), c['family'], ', '.join(_s(a) for a in c['accepted']), c['addErr'], _b(c['sliceKeys'])) for c in sc['classes']))
     L.append(']')
     L.append('')
     L.append('def table : List Descriptor := [')
